@@ -24,7 +24,9 @@
      "walltime_range"   dispatch_walltime does tv_sec*NPS + tv_nsec + delta unchecked
 
    PART 2 is the REFERENCE: what property C12 says, written without reusing part 1.
-   PART 3 states the laws; TLC/Apalache compare part 1 against part 2. *)
+   TimeMC.tla states the laws and the state space in which TLC (W=8, exhaustive) and
+   Apalache (W=64, symbolic) compare part 1 against part 2; TimeEmit.tla emits the test
+   vectors that are replayed on the real functions (harness/drv_time.c). *)
 EXTENDS Integers
 
 CONSTANTS
@@ -35,9 +37,7 @@ CONSTANTS
   \* @type: Set(Str);
   Fixed,   \* names of the repaired defects (see above)
   \* @type: Str;
-  Mut,     \* "none" or the name of a spec mutation (non-vacuity runs)
-  \* @type: Bool;
-  Thorough \* TLC only: larger tv_nsec / now sets for dispatch_walltime
+  Mut      \* "none" or the name of a spec mutation (non-vacuity runs)
 
 \* @typeAlias: now = { up: Int, mono: Int, wall: Int };
 \* @typeAlias: ref = { kind: Str, clock: Str, t: Int };
@@ -54,8 +54,15 @@ SMAX == H - 1         \* INT64_MAX
 
 AllFixes == {"encode_boundary", "wall_underflow", "walltime_range"}
 
-U(x) == x % M                                             \* (uint64_t)x
-S(x) == LET u == x % M IN IF u >= H THEN u - M ELSE u     \* (int64_t)x
+\* (uint64_t)x: x mod 2^W.  Written with the single-wrap cases first (same value, see
+\* HelpersExact) because that is all the additions need and SMT solvers prefer it.
+U(x) == IF x >= 0 /\ x < M THEN x
+        ELSE IF x >= M /\ x < 2 * M THEN x - M
+        ELSE IF x < 0 /\ x >= 0 - M THEN x + M
+        ELSE x % M
+S(x) == LET u == U(x) IN IF u >= H THEN u - M ELSE u      \* (int64_t)x
+\* word & DISPATCH_WALLTIME_MASK (bit W-2) of a word
+BitQ(t) == IF t >= H THEN t - H >= Q ELSE t >= Q
 
 (***************************************************************************)
 (* PART 1 -- the code                                                      *)
@@ -66,11 +73,11 @@ S(x) == LET u == x % M IN IF u >= H THEN u - M ELSE u     \* (int64_t)x
 Decode(t, now) ==
   LET actual ==
         IF S(t) < 0
-        THEN IF (t \div Q) % 2 = 1                       \* time & DISPATCH_WALLTIME_MASK
+        THEN IF BitQ(t)                                  \* time & DISPATCH_WALLTIME_MASK
              THEN IF t = WALLNOW THEN now.wall ELSE U(0 - t)
              ELSE t - H                                  \* time & ~(1 << 63)
         ELSE t
-      clk == IF S(t) < 0 THEN (IF (t \div Q) % 2 = 1 THEN "wall" ELSE "mono") ELSE "up"
+      clk == IF S(t) < 0 THEN (IF BitQ(t) THEN "wall" ELSE "mono") ELSE "up"
   IN [clock |-> clk, value |-> IF actual > MAXV THEN FOREVER ELSE actual]
 
 \* _dispatch_clock_and_value_to_time
@@ -241,27 +248,8 @@ ClassWalltime(hasTs, sec, nsec, delta, now) ==
   ELSE ""
 
 (***************************************************************************)
-(* PART 3 -- state space: one state (ph = 1) per input tuple; the laws are *)
-(* invariants of those states.  There is no behaviour to speak of.         *)
+(* Environment and the finite input sets TLC enumerates                    *)
 (***************************************************************************)
-VARIABLES
-  \* @type: Int;
-  ph,      \* 0: inputs half chosen (TLC only, lets the workers share the enumeration); 1: chosen
-  \* @type: Str;
-  fn,      \* "time" | "walltime" | "walltime_null" | "timeout"
-  \* @type: Int;
-  base,    \* dispatch_time_t argument
-  \* @type: Int;
-  delta,
-  \* @type: Int;
-  sec,     \* tv_sec
-  \* @type: Int;
-  nsec,    \* tv_nsec
-  \* @type: $now;
-  now
-
-vars == <<ph, fn, base, delta, sec, nsec, now>>
-
 \* Environment assumption: each clock reads a representable, non-degenerate time.
 \* @type: ($now) => Bool;
 NowOK(n) == /\ n.up >= 1 /\ n.up <= MAXV /\ n.mono >= 1 /\ n.mono <= MAXV
@@ -272,104 +260,9 @@ NowSet == { [up |-> 1, mono |-> 1, wall |-> 3],
             [up |-> Q \div 2 + 3, mono |-> Q \div 4 + 1, wall |-> Q \div 2 - 5],
             [up |-> 5, mono |-> Q - 3, wall |-> 7],
             [up |-> MAXV, mono |-> MAXV - 1, wall |-> MAXV] }
+TwoNows == {[up |-> 1, mono |-> 1, wall |-> 3], [up |-> 5, mono |-> Q - 3, wall |-> 7]}
 
 \* tv_nsec values explored by TLC: every normalised one and denormalised landmarks
 NsecSet == (0 .. NPS - 1) \cup {0 - 1, 0 - NPS, NPS, NPS + 1, SMAX, SMIN, Q - 1, Q, Q + 1}
 NsecSetQuick == {0, 1, NPS - 1, 0 - 1, NPS, SMAX, SMIN, Q}
-
-\* TLC: the first half of each input tuple is chosen by Init, the second half by the single
-\* step Choose, so that the enumeration is spread over the workers.
-TwoNows == {[up |-> 1, mono |-> 1, wall |-> 3], [up |-> 5, mono |-> Q - 3, wall |-> 7]}
-InitTLC ==
-  /\ ph = 0 /\ delta = 0 /\ nsec = 0
-  /\ \/ fn = "time" /\ base \in 0 .. M - 1 /\ sec = 0 /\ now \in NowSet
-     \/ fn = "timeout" /\ base \in 0 .. M - 1 /\ sec = 0 /\ now \in NowSet
-     \/ fn = "walltime_null" /\ base = 0 /\ sec = 0 /\ now \in NowSet
-     \/ fn = "walltime" /\ base = 0 /\ sec \in SMIN .. SMAX /\ now \in (IF Thorough THEN NowSet ELSE TwoNows)
-
-Choose ==
-  /\ ph = 0 /\ ph' = 1
-  /\ UNCHANGED <<fn, base, sec, now>>
-  /\ delta' \in (IF fn = "timeout" THEN {0} ELSE SMIN .. SMAX)
-  /\ nsec' \in (IF fn = "walltime" THEN (IF Thorough THEN NsecSet ELSE NsecSetQuick) ELSE {0})
-
-\* full domain (Apalache): every word, every delta, every timespec, every admissible now
-InitFull ==
-  /\ ph = 1
-  /\ fn \in {"time", "timeout", "walltime_null", "walltime"}
-  /\ base \in 0 .. M - 1
-  /\ delta \in SMIN .. SMAX
-  /\ sec \in SMIN .. SMAX
-  /\ nsec \in SMIN .. SMAX
-  /\ now \in [up : 1 .. MAXV, mono : 1 .. MAXV, wall : 3 .. MAXV]
-
-Next == Choose
-
-\* result and reference for the current state
-Res == IF fn = "time" THEN DispatchTime(base, delta, now)
-       ELSE DispatchWalltime(fn = "walltime", sec, nsec, delta, now)
-Ref == IF fn = "time" THEN RefTime(base, delta, now)
-       ELSE RefWalltime(fn = "walltime", sec, nsec, delta, now)
-Class == IF fn = "time" THEN ClassTime(base, delta, now)
-         ELSE ClassWalltime(fn = "walltime", sec, nsec, delta, now)
-\* the same call with delta + 1
-Res1 == IF fn = "time" THEN DispatchTime(base, delta + 1, now)
-        ELSE DispatchWalltime(fn = "walltime", sec, nsec, delta + 1, now)
-Class1 == IF fn = "time" THEN ClassTime(base, delta + 1, now)
-          ELSE ClassWalltime(fn = "walltime", sec, nsec, delta + 1, now)
-
-TypeOK == /\ ph \in {0, 1}
-          /\ fn \in {"time", "timeout", "walltime_null", "walltime"}
-          /\ base \in 0 .. M - 1 /\ delta \in SMIN .. SMAX
-          /\ sec \in SMIN .. SMAX /\ nsec \in SMIN .. SMAX /\ NowOK(now)
-
-\* (L1) same clock, exact shift, or saturation -- the property's first sentence
-Conforms == (ph = 1 /\ fn # "timeout") => RefOK(Ref, Res, now)
-
-\* (L1') what holds of the pinned code: every deviation lies in a named input class
-ConformsOrKnown == (ph = 1 /\ fn # "timeout") => (RefOK(Ref, Res, now) \/ Class # "")
-
-\* (L2) a larger delta never yields an earlier time (adjacent deltas suffice: the order
-\*      is a total preorder), and never another clock
-Monotone ==
-  (ph = 1 /\ fn # "timeout" /\ delta < SMAX) =>
-     /\ RefWait(Res, now) <= RefWait(Res1, now)
-     /\ (Res # FOREVER /\ Res1 # FOREVER) => RefClock(Res) = RefClock(Res1)
-
-MonotoneOrKnown ==
-  (ph = 1 /\ fn # "timeout" /\ delta < SMAX) =>
-     \/ Class # "" \/ Class1 # ""
-     \/ /\ RefWait(Res, now) <= RefWait(Res1, now)
-        /\ (Res # FOREVER /\ Res1 # FOREVER) => RefClock(Res) = RefClock(Res1)
-
-\* (L3) FOREVER is absorbing
-Absorbing == (ph = 1 /\ fn = "time" /\ base = FOREVER) => Res = FOREVER
-
-\* (L4) waiting until a time that is already past does not block
-PastNoBlock == (ph = 1 /\ fn = "timeout" /\ RefElapsed(base, now)) => TimeoutM(base, now) = 0
-
-\* (L4') ... in particular the result of an underflowing shift
-UnderflowNoBlock ==
-  (ph = 1 /\ fn # "timeout" /\ Ref.kind = "elapsed" /\ Res # FOREVER) => TimeoutM(Res, now) = 0
-
-UnderflowNoBlockOrKnown ==
-  (ph = 1 /\ fn # "timeout" /\ Ref.kind = "elapsed" /\ Res # FOREVER /\ Class = "") =>
-     TimeoutM(Res, now) = 0
-
-\* model sanity: the transcribed _dispatch_timeout is the reference wait for finite times
-TimeoutExact ==
-  (ph = 1 /\ fn = "timeout" /\ base # FOREVER /\ ~RefOutOfRange(base)) =>
-     TimeoutM(base, now) = RefWait(base, now)
-
-\* Each known class really contains a deviation of the pinned code (checked as an
-\* invariant that must be VIOLATED when Fixed = {}):  NoDev_<class>
-NoDevIn(c) == ~(ph = 1 /\ fn # "timeout" /\ Class = c /\ ~RefOK(Ref, Res, now))
-NoDev_dt_sum_eq_max == NoDevIn("dt_sum_eq_max")
-NoDev_dt_wall_sum_eq_1 == NoDevIn("dt_wall_sum_eq_1")
-NoDev_wt_int64_overflow == NoDevIn("wt_int64_overflow")
-NoDev_wt_unsaturated == NoDevIn("wt_unsaturated")
-NoDev_wt_past_nonneg_delta == NoDevIn("wt_past_nonneg_delta")
-
-SpecTLC == InitTLC /\ [][Next]_vars
-SpecFull == InitFull /\ [][Next]_vars
 =============================================================================
